@@ -250,6 +250,7 @@ where
         // Stop re-discovering the same failure forever: at most this many
         // distinct unknown failures per shard.
         let max_failures = 3usize;
+        let mut repeats = 0u32;
         while budget > 0 {
             let strategy = (self.strategy)(tier);
             let rng = TestRng::from_seed(RngAlgorithm::ChaCha, &mix(seed, self.name, shard, round));
@@ -328,8 +329,10 @@ where
                         *rep.known_hits.entry(sig).or_insert(0) += 1;
                     } else if !rep.failures.iter().any(|f| f.signature == sig) {
                         rep.failures.push(FoundFailure { sub: self.name.to_string(), signature: sig, message: msg, case: v, shrunk: true });
+                    } else {
+                        repeats += 1;
                     }
-                    if rep.failures.len() >= max_failures {
+                    if rep.failures.len() >= max_failures || repeats >= 2 {
                         break;
                     }
                     round += 1;
